@@ -310,7 +310,14 @@ pub fn execute_digests(sc: &DScenario) -> (Vec<DFinding>, u64, bool) {
     let mut lh = fnv(src.as_bytes());
     let mut built_ok = false;
     for &seed in &sc.seeds {
+        // One simulated process at a time: concurrent users of the regex crate's scratch pools make
+        // a thread build a fresh cache now and then, which advances its RandomState counter - the
+        // hash keys a grammar is built under would then depend on what other threads happen to be
+        // doing, and a replay (which is sequential) could not reproduce them.
+        static ONE_AT_A_TIME: Mutex<()> = Mutex::new(());
+        let guard = ONE_AT_A_TIME.lock().unwrap_or_else(|e| e.into_inner());
         let (r, _) = sim_process(seed, None, || dump(&sc.gram.kind, &src));
+        drop(guard);
         let d = match r {
             SimOutcome::Ok(d) => d,
             SimOutcome::Panic(m) => {
